@@ -386,26 +386,8 @@ func typedMore(dir string, seed int64, tier string, repU *Report, wU *CaseWriter
 		wU.add(fmt.Sprintf("UnmarshalCase %s %s %s %s %s %s %s", coqOpts(false, false, false), reg, tyS, "(zero "+tyS+")", coqTokens(stream), floatTable(stream), uobs(back, eU)), desc, len(stream) >= 2)
 
 		// ---------------- C11: schema-less decoding is lossless ----------------
-		var x any
-		eA := guard(func() error { return copyBudget(tokensFrom(ts), sb.Unmarshal(&x)) })
-		repU.Evaluations++
 		adesc := fmt.Sprintf("any: source=%v stream=[%s]", s, truncate(descTokens(ts), 400))
-		dom := inSchemalessDomain(ts)
-		if classOf(eA) == "EPanic" || classOf(eA) == "EDiverge" {
-			repU.violate("C11", "any-panic", fmt.Sprintf("%v", eA), adesc)
-		} else if eA != nil {
-			if dom {
-				repU.violate("C11", "any-rejects-in-domain", fmt.Sprintf("a stream inside the schema-less domain was rejected: %v", eA), adesc)
-			}
-		} else {
-			re, e2 := marshalTokens(x, nil)
-			if e2 != nil || !tokensExactEq(re, ts) {
-				repU.violate("C11", "any-not-lossless", fmt.Sprintf("re-marshalling the decoded value gives (%v) [%s]", e2, truncate(descTokens(re), 400)), adesc)
-			}
-			if !dom {
-				repU.count("c11: accepted outside the stated domain (lossless)")
-			}
-		}
+		x, eA := anyOracle(repU, ts, adesc, inSchemalessDomain(ts))
 		if len(ts) < 200 {
 			av := reflect.ValueOf(&x).Elem()
 			wU.add(fmt.Sprintf("UnmarshalCase %s %s TAny (GAny None) %s %s %s", coqOpts(false, false, false), reg, coqTokens(ts), floatTable(ts), uobs(av, eA)), adesc, len(ts) >= 2)
@@ -436,4 +418,29 @@ func usesEmbeddedOrRecursive(t reflect.Type) bool {
 		}
 	}
 	return false
+}
+
+// C11 on one stream: decode into an untyped target, marshal again, compare.  dom = the stream is
+// inside the schema-less domain (then it must be accepted); outside it, acceptance is allowed only
+// when the result re-marshals to the identical stream
+func anyOracle(repU *Report, ts []sb.Token, adesc string, dom bool) (any, error) {
+	var x any
+	eA := guard(func() error { return copyBudget(tokensFrom(ts), sb.Unmarshal(&x)) })
+	repU.Evaluations++
+	if classOf(eA) == "EPanic" || classOf(eA) == "EDiverge" {
+		repU.violate("C11", "any-panic", fmt.Sprintf("%v", eA), adesc)
+	} else if eA != nil {
+		if dom {
+			repU.violate("C11", "any-rejects-in-domain", fmt.Sprintf("a stream inside the schema-less domain was rejected: %v", eA), adesc)
+		}
+	} else {
+		re, e2 := marshalTokens(x, nil)
+		if e2 != nil || !tokensExactEq(re, ts) {
+			repU.violate("C11", "any-not-lossless", fmt.Sprintf("re-marshalling the decoded value gives (%v) [%s]", e2, truncate(descTokens(re), 400)), adesc)
+		}
+		if !dom {
+			repU.count("c11: accepted outside the stated domain (lossless)")
+		}
+	}
+	return x, eA
 }
